@@ -2,8 +2,11 @@ package checks
 
 import (
 	"encoding/json"
+	"fmt"
 	"os"
 	"testing"
+
+	"github.com/teivah/majorana/risc"
 
 	"verif/evid"
 	"verif/sim"
@@ -120,5 +123,33 @@ func TestDebugExcluded(t *testing.T) {
 	r, _ := refRun(&pc.Case)
 	for _, prop := range []string{"C01", "C07"} {
 		t.Logf("%s on %s: excluded by %q", prop, pc.Cfg, excludedBy(prop, &pc.Case, &r, pc.Cfg))
+	}
+}
+
+// TestDebugStale prints what a first run leaves inside the parsed program of a
+// c08 replay case (development aid).
+func TestDebugStale(t *testing.T) {
+	path := os.Getenv("VERIF_DEBUG_STALE")
+	if path == "" {
+		t.Skip()
+	}
+	rp, err := evid.ReadReplay(path)
+	if err != nil {
+		t.Fatal(err)
+	}
+	var c c08Case
+	if err := json.Unmarshal(rp.Case, &c); err != nil {
+		t.Fatal(err)
+	}
+	text := c.Case.Prog.Text()
+	app, _ := risc.Parse(text)
+	fresh, _ := risc.Parse(text)
+	o := sim.RunApp(c.Other, app, c.Case.Init(), sim.BudgetFor(refSteps(&c.Case)), nil)
+	t.Logf("first run on %s: %s %s", c.Other, o.Kind, o.Err)
+	for i := range app.Instructions {
+		a, b := fmt.Sprintf("%+v", app.Instructions[i]), fmt.Sprintf("%+v", fresh.Instructions[i])
+		if a != b {
+			t.Logf("instruction %d: %s (fresh: %s)", i, a, b)
+		}
 	}
 }
